@@ -2306,7 +2306,7 @@ class WBEMConnection:  # pylint: disable=too-many-instance-attributes
         if tup_tree and tup_tree[0][0] == 'RETURNVALUE':
 
             returnvalue = self._wire_value(
-                tup_tree[0][2], tup_tree[0][1]['PARAMTYPE'])
+                tup_tree[0][2], tup_tree[0][1].get('PARAMTYPE', None))
             tup_tree = tup_tree[1:]
 
         # Convert zero or more PARAMVALUE elements into dictionary
